@@ -80,7 +80,7 @@ package model
 
 // Hash is the identifier key of an element: the decimal renderings of Era, Lamport, Delimiter
 // followed by the client id (dec(n) is the engine's injective, separator-free model of %d).
-//@ pred tsKey(era uint32, lamport uint64, delim uint32, cuid string) = strcat(dec(era), dec(lamport), dec(delim), cuid)
+//@ pred tsKey(era uint32, lamport uint64, delim uint32, cuid string) = strcat(dec(era), ":", dec(lamport), ":", dec(delim), ":", cuid)
 //@ func (*Timestamp).Hash
 //@   mode math
 //@   props C15
@@ -92,3 +92,15 @@ package model
 
 // option bits of a push-pull pack (bit = the PushPullBitXXX constant value)
 //@ pred optBit(o uint32, bit uint32) = (o / bit) % 2 == 1
+
+// ---------------------------------------------------------------------------------------
+// Hash is an injective identifier key (C15): distinct (Era, Lamport, Delimiter, CUID) never
+// share a key. Proved from two facts about decimal rendering of non-negative integers
+// (strconv): it is injective, and it never contains the separator character.
+//@ axiom decInjective: forall a mathint, b mathint :: a >= 0 && b >= 0 && dec(a) == dec(b) ==> a == b
+//@ axiom decDigitsOnly: forall a mathint :: a >= 0 ==> !contains(dec(a), ":") && strlen(dec(a)) >= 1
+//@ lemma splitColon props C15 C04: forall a string, b string, r1 string, r2 string :: !contains(a, ":") && !contains(b, ":") && strcat(a, ":", r1) == strcat(b, ":", r2) ==> a == b && r1 == r2
+//@ lemma tsKeyInjective props C15 C04 using decInjective, decDigitsOnly, splitColon: forall e1 uint32, l1 uint64, d1 uint32, c1 string, e2 uint32, l2 uint64, d2 uint32, c2 string :: tsKey(e1, l1, d1, c1) == tsKey(e2, l2, d2, c2) ==> e1 == e2 && l1 == l2 && d1 == d2 && c1 == c2
+//@ apply splitColon(dec(e1), dec(e2), strcat(dec(l1), ":", dec(d1), ":", c1), strcat(dec(l2), ":", dec(d2), ":", c2))
+//@ apply splitColon(dec(l1), dec(l2), strcat(dec(d1), ":", c1), strcat(dec(d2), ":", c2))
+//@ apply splitColon(dec(d1), dec(d2), c1, c2)
